@@ -300,7 +300,7 @@ func (b *builder) paramSchema(style string) M {
 
 var stylesFor = map[string][][2]any{
 	"path":   {{"", nil}, {"simple", false}, {"simple", true}, {"label", false}, {"label", true}, {"matrix", false}, {"matrix", true}},
-	"query":  {{"", nil}, {"form", true}, {"form", false}, {"spaceDelimited", false}, {"spaceDelimited", true}, {"pipeDelimited", false}, {"pipeDelimited", true}, {"deepObject", true}},
+	"query":  {{"", nil}, {"form", true}, {"form", false}, {"spaceDelimited", false}, {"spaceDelimited", true}, {"pipeDelimited", false}, {"pipeDelimited", true}, {"deepObject", true}, {"deepObject", nil}, {"form", nil}},
 	"header": {{"", nil}, {"simple", false}, {"simple", true}},
 	"cookie": {{"", nil}, {"form", false}, {"form", true}},
 }
